@@ -41,7 +41,7 @@ def unslab(k, a):
     return out.reshape((1,)) if out.ndim == 0 else out
 
 
-def make_problem(rng, cls, nmax, periodic_axes=None, uniform_axes=(), geo=None):
+def make_problem(rng, cls, nmax, periodic_axes=None, uniform_axes=(), geo=None, any_ends=False):
     nd = NDIM[cls]
     n = [int(rng.integers(1, nmax + 1)) for _ in range(nd)]
     faces = []
@@ -58,8 +58,11 @@ def make_problem(rng, cls, nmax, periodic_axes=None, uniform_axes=(), geo=None):
         faces.append(gen.axis_faces(rng, AXKIND[cls][k], n[k], fam, o_ or None))
     g = Geom(cls, faces)
     if periodic_axes is None:
-        capable = [k for k in range(nd) if AXKIND[cls][k] in ('len', 'ang') and abs(g.w[k][0] - g.w[k][-1]) <= 1e-12 * g.w[k][0]]
-        periodic_axes = [k for k in capable if rng.random() < 0.3]
+        # any_ends: embeddings and relabellings compare two executions of the SAME discrete formulas, so periodic axes whose first
+        # and last cells differ in width are admissible there (whatever the library does at such a seam, it must do it alike in 1-D,
+        # 2-D and 3-D and under every axis order); mirror and shift pairs keep to equal end cells
+        capable = [k for k in range(nd) if AXKIND[cls][k] in ('len', 'ang') and (any_ends or abs(g.w[k][0] - g.w[k][-1]) <= 1e-12 * g.w[k][0])]
+        periodic_axes = [k for k in capable if rng.random() < (0.45 if any_ends else 0.3)]
     for _ in range(60):
         spec = gen.gen_bc_spec(rng, g, periodic_axes=periodic_axes, lams=(1.0, -1.0, 2.5, 0.4))
         if gen.bc_nonsingular(g, spec):
@@ -288,7 +291,14 @@ def run_case(case):
     transform = None
     if kind == 'embed':
         lowcls, highcls, p = EMBED[case['pair']]
-        P = make_problem(rng, lowcls, 4 if NDIM[lowcls] == 1 else 3, geo=case.get('geo'))
+        fp_ = None
+        if case.get('seam'):
+            # directed: the last periodic-capable axis of the lower-dimensional problem IS periodic, with cells of any width at the seam
+            capk_ = [k_ for k_ in range(NDIM[lowcls]) if AXKIND[lowcls][k_] in ('len', 'ang')]
+            fp_ = capk_[-1:] or None
+        P = make_problem(rng, lowcls, 4 if NDIM[lowcls] == 1 else 3, periodic_axes=fp_, geo=case.get('geo'), any_ends=bool(case['seed'][-1] % 2) or bool(case.get('seam')))
+        if case.get('seam'):
+            cov['embed_with_periodic_seam_any_widths'] = 1
         st_ = rng.bit_generator.state
 
         def transform(PP):
@@ -298,7 +308,7 @@ def run_case(case):
         label = '%s->%s@%d' % (lowcls, highcls, p)
     elif kind == 'permute':
         cls = case['cls']
-        P = make_problem(rng, cls, 4 if NDIM[cls] == 2 else 3, geo=case.get('geo'))
+        P = make_problem(rng, cls, 4 if NDIM[cls] == 2 else 3, geo=case.get('geo'), any_ends=bool(case['seed'][-1] % 2))
         transform = lambda PP: permute(PP, tuple(case['perm']))
         Q, lift, info = transform(P)
         label = '%s perm %r' % (cls, case['perm'])
@@ -477,6 +487,8 @@ def plan(tier, seed):
             geo_cases.append(dict(c, geo=['offset', 'negative', 'thinend', 'offset', 'wild'][gi % 5], seed=[seed, 8, 700000 + c['seed'][2]]))
             gi += 1
     cases = cases + geo_cases
+    seam = [dict(c, seam=True, seed=[seed, 8, 900000 + c['seed'][2]]) for c in cases if c['kind'] == 'embed' and not c.get('geo') and not c.get('bc_edit')]
+    cases = cases + seam
     step = 12
     return [cases[j:j + step] for j in range(0, len(cases), step)]
 
